@@ -103,6 +103,8 @@ pub async fn handle_notify_get_or_head(
         Err(resp) => return Ok(resp),
     };
 
+    #[cfg(routinator_verif)]
+    crate::verif::point("http.notify.wait");
     if wait {
         notify.subscribe().recv().await;
     }
